@@ -464,6 +464,59 @@ pub fn spaces(tier: Tier) -> Vec<Space> {
             eval_tx_bytes(&b, &e, acc, case, &d);
         }));
     }
+    // S3c: content sweep — one (or two adjacent) payload byte(s) through all 256 values at every position of a txid,
+    // of a 24-byte push in an unlocking script and of a 24-byte push in an output script
+    {
+        let e = env.clone();
+        v.push(Space::new("content-sweep", (32 + 24 + 24) * 256 * 2, move |case, acc| {
+            let c = coords(case.idx, &[80, 256, 2]);
+            let (pos, b, adjacent) = (c[0] as usize, c[1] as u8, c[2] == 1);
+            let mut tx = RTx { version: 1, locktime: 0, inputs: vec![simple_in(0), simple_in(1)], outputs: vec![simple_out(0), simple_out(1)] };
+            let push24: Vec<u8> = std::iter::once(24u8).chain((0..24).map(|i| (0x90 + i) as u8)).collect();
+            let put = |buf: &mut [u8], at: usize| {
+                buf[at] = b;
+                if adjacent {
+                    let n = buf.len();
+                    buf[(at + 1) % n] = b;
+                }
+            };
+            let place = if pos < 32 {
+                put(&mut tx.inputs[1].txid_wire, pos);
+                "txid"
+            } else if pos < 56 {
+                let mut sc = push24.clone();
+                put(&mut sc[1..], pos - 32);
+                tx.inputs[0].script = sc;
+                "script_sig-push"
+            } else {
+                let mut sc = push24.clone();
+                put(&mut sc[1..], pos - 56);
+                sc.push(0xac);
+                tx.outputs[1].script = sc;
+                "output-script-push"
+            };
+            let bytes = tx.encode();
+            let d = || json!({"place": place, "position": pos, "byte": b, "adjacent_pair": adjacent});
+            eval_tx_bytes(&bytes, &e, acc, case, &d);
+        }));
+    }
+    // S2b: every (inputs, outputs) count pair in 0..=N x 0..=N with all-distinct and with all-identical elements
+    {
+        let e = env.clone();
+        let n: u64 = if tier.is_thorough() { 41 } else { 21 };
+        v.push(Space::new("counts-interior", n * n * 2, move |case, acc| {
+            let c = coords(case.idx, &[n, n, 2]);
+            let tx = RTx {
+                version: 2,
+                locktime: 7,
+                inputs: (0..c[0]).map(|k| if c[2] == 1 { simple_in(9) } else { RIn { txid_wire: txid_pat(1 + k % 2), vout: k as u32, script: vec![0x51 + (k % 16) as u8], sequence: 0xffffff00 + k as u32 } }).collect(),
+                outputs: (0..c[1]).map(|k| if c[2] == 1 { simple_out(9) } else { simple_out(k) }).collect(),
+            };
+            let b = tx.encode();
+            let d = || json!({"n_inputs": c[0], "n_outputs": c[1], "identical_elements": c[2] == 1});
+            eval_tx_bytes(&b, &e, acc, case, &d);
+        }));
+    }
     // S4: coinbase-outpoint inputs in coinbase and non-coinbase transactions
     {
         let e = env.clone();
